@@ -18,11 +18,17 @@ WAITING = {2, 3, 11, 12, 13, 14, 15, 16, 17}
 
 
 class History:
-    def __init__(self, seed, trace=True, capture_logs=False, **conf):
+    def __init__(self, seed, trace=True, capture_logs=False, deep=False, **conf):
         self.seed = seed
         self.rng = random.Random(seed * 7919 + 17)
         self.w = W.World(seed, capture_logs=capture_logs, **conf)
-        self.tr = MC.Tracer(self.w) if trace else None
+        if trace and deep:
+            import handlers as HD
+            self.tr = HD.DeepTracer(self.w)
+        else:
+            self.tr = MC.Tracer(self.w) if trace else None
+        if self.tr is not None:
+            self.tr.owner = self
         self.ops = []              # the schedule as executed (for the replay file)
         self.findings = []         # (key, what, op index)
         self.oracles = []
@@ -65,7 +71,7 @@ class History:
             setattr(IKESA.IkeSa, name, fn)
         self._saved = {}
         if self.tr:
-            self.tr.close()
+            self.tr.restore()
         self.w.close()
 
     def __enter__(self):
